@@ -211,20 +211,20 @@ def groupNorm (add sub mul div : α → α → α) (sqabs sqrt : α → α) (div
 
 /-! ### bilinear -/
 
-/-- `index::bilinear_input_reshape(shape)` for a resizable result: rank ≤ 2 unchanged; rank > 2: one unit axis inserted
-    right after the FIRST axis (`[0] = shape[0]`, ones, then `result[i] = shape[i−1]` for `i ≥ 2`).
-    (For rank > 3 this is the defect bilinear.lead-axes: the unit axis belongs right before the last two axes —
-    fixes/C17-bilinear-lead-axes.diff; both agree up to rank 3.)  `none`: rank 0 (`at(shape, 0)` out of range). -/
+/-- `index::bilinear_input_reshape(shape)` for a resizable result (as repaired by fix commit 908c6a6,
+    fixes/C17-bilinear-lead-axes.diff): rank ≤ 2 unchanged; rank > 2: one unit axis inserted right BEFORE the last two
+    axes, so that every leading (batch) axis stays in front of it and only the unit axis broadcasts against the
+    out-features axis of the weight.  `none`: rank 0 (`at(shape, 0)` out of range). -/
 def bilinearInputReshape (s : Shape) : Option Shape :=
   match s with
   | [] => none
-  | s0 :: rest => some (if 2 < rest.length + 1 then s0 :: 1 :: rest else s0 :: rest)
+  | _ => some (if 2 < s.length then s.take (s.length - 2) ++ 1 :: s.drop (s.length - 2) else s)
 
-/-- the repaired form: the unit axis right before the last two axes -/
-def bilinearInputReshapeFixed (s : Shape) : Option Shape :=
+/-- the form before the repair: the unit axis right after the FIRST axis (agrees with the above up to rank 3) -/
+def bilinearInputReshapeOld (s : Shape) : Option Shape :=
   match s with
   | [] => none
-  | _ => some (if 2 < s.length then s.take (s.length - 2) ++ 1 :: s.drop (s.length - 2) else s)
+  | s0 :: rest => some (if 2 < rest.length + 1 then s0 :: 1 :: rest else s0 :: rest)
 
 /-- `index::bilinear_result_transpose(dim)`: the identity permutation with the last two axes swapped (`dim ≥ 2`) -/
 def bilinearResultTranspose (n : Nat) : List Nat :=
